@@ -258,7 +258,16 @@ func helperStreams() {
 		cmp("delsig", fmt.Sprintf("delsig %s %s", vlib.Hex(w), vlib.Hex(sg)), wantDel, 0, 1)
 		rep := strings.Fields(o.MustAsk(fmt.Sprintf("delsig %s %s", vlib.Hex(w), vlib.Hex(sg))))
 		if len(rep) == 4 && (rep[0] != rep[2] || rep[1] != rep[3]) {
-			r.Hit("delsig:differs-from-FindAndDelete(sig-len-or-decode-error)")
+			// theorem delSig_eq_findAndDelete: the two coincide on every script WITHOUT a decode error; on a script with a
+			// decode error gocoin's byte-wise delSig and Core's opcode-wise FindAndDelete may legitimately differ (such a
+			// script fails anyway). The signature-length difference was removed by fix acaf95d6.
+			if scriptDecodes(w) {
+				r.TieFail("delsig-vs-findanddelete", fmt.Sprintf("script %x decodes, sig %x: model delSig %s/%s, Core FindAndDelete %s/%s", w, sg, rep[0], rep[1], rep[2], rep[3]), map[string]string{"request": fmt.Sprintf("delsig %x %x", w, sg)})
+			} else {
+				r.Hit("delsig:differs-from-FindAndDelete(decode-error)")
+			}
+		} else if len(rep) == 4 {
+			r.Hit("delsig:equals-FindAndDelete")
 		}
 	}
 	// signature / key encodings
@@ -1060,4 +1069,21 @@ func generated() {
 	// ---- tapscript sigop budget at and around its boundary
 	budgetStream(r.Rng.Fork(), r.N(160, 6000))
 	_ = bytes.Equal
+}
+
+// scriptDecodes: the real decoder (btc.GetOpcode) walks the whole script without an error
+func scriptDecodes(p []byte) (ok bool) {
+	defer func() {
+		if e := recover(); e != nil {
+			ok = false
+		}
+	}()
+	for idx := 0; idx < len(p); {
+		_, _, n, e := btc.GetOpcode(p[idx:])
+		if e != nil || n <= 0 {
+			return false
+		}
+		idx += n
+	}
+	return true
 }
